@@ -1,18 +1,19 @@
 #!/bin/bash
-# usage: try_seeded_wt.sh <ID> [PID ...] — run the checks against the scratch worktree /tmp/mw_<ID> with its seeded change applied
-# (same as try_seeded.sh, but on the worktree through VERIF_REPO so that several seeded changes can be tried at once)
+# usage: try_seeded_wt.sh <seeded-dir-name> [PID ...] — run the checks against a scratch copy of /repo's sources with the archived
+# seeded change applied (through VERIF_REPO, so several changes can be tried at once); the copy is removed afterwards
 set -u
-ID=$1; shift
-W=/tmp/mw_$ID
-cd $W && git checkout -q -- regexml/src && rm -f regexml/tests/demo_seeded.rs && git apply out/patch.diff || { echo "PATCH DOES NOT APPLY"; exit 3; }
+N=$1; shift
+S=/verif/seeded/$N
+W=$(mktemp -d /tmp/seedtry_XXXXXX)
+mkdir -p $W/regexml && cp -r /repo/regexml/src $W/regexml/src
+( cd $W && patch -s -p1 < $S/patch.diff ) || { echo "PATCH DOES NOT APPLY"; rm -rf $W; exit 3; }
 cd /verif
 ids="$@"
 [ -z "$ids" ] && ids=$(python3 -c "import json;print(' '.join(c['property_id'] for c in json.load(open('MANIFEST.json'))['checks']))")
-mkdir -p build/seeded_ev_$ID
-R=build/seedres_$ID.txt; : > $R
+R=build/seedres_$N.txt; : > $R
 for p in $ids; do
-  VERIF_REPO=$W VERIF_EVIDENCE_DIR=build/seeded_ev_$ID ./check $p > build/seed_out_${ID}_$p.txt 2>&1; echo "$p rc=$?" >> $R
-  grep -h "VIOLATION\|UNDECIDED\|undecided:" build/seed_out_${ID}_$p.txt | cut -c1-300 >> $R
+  VERIF_REPO=$W VERIF_EVIDENCE_DIR=build/seeded_ev_$N ./check $p > build/seed_out_${N}_$p.txt 2>&1; echo "$p rc=$?" >> $R
+  grep -h "VIOLATION\|UNDECIDED" build/seed_out_${N}_$p.txt | cut -c1-300 >> $R
 done
-git -C $W checkout -q -- regexml/src
-echo "== $ID"; cat $R
+rm -rf $W build/seeded_ev_$N
+echo "== $N"; cat $R
